@@ -406,7 +406,7 @@ func rule145(r *core.Run) {
 	ap := sts[0]
 	matched, notCommon := false, false
 	for _, g := range core.GuardsOf(ap) {
-		gs := r.P.SliceOf(g.If.Cond, core.SliceOpts{Depth: -1})
+		gs := r.P.SliceOf(g.If.Cond, core.SliceOpts{Depth: -1, Control: true})
 		cd := core.CondOf(g.If.Cond)
 		truth := g.Branch != cd.Neg
 		if gs.Has("call:gofakes3.(Prefix).Match") && gs.Has("call:goskipiter.(*Iterator).Key") && truth {
